@@ -18,6 +18,7 @@
   reads or writes and stops on any write or any read outside {Pieces, Colors, STM, FiftyCnt}
   (`Eval.boardFieldsRead_expected`) — and dynamic (harness: a preceding evaluation never changes a result).
 -/
+import ChessVerif.Model.Guards.Eval
 import ChessVerif.Proofs.EvalBasic
 import ChessVerif.Proofs.EvalMirror
 
